@@ -1822,6 +1822,8 @@ fn all_lines(w: &World) -> Vec<String> {
 }
 
 fn canon_model(line: &str) -> String {
+    // (the model driver appends ` | #tag …`: which branch of the model the stimulus exercised — reporting only)
+    let line = line.split(" | #").next().unwrap_or(line);
     // model answers `<res> | ev; ev` with wires last; canonical = wire/wclose sequence, then the rest sorted
     let Some((res, evs)) = line.split_once(" | ") else { return line.to_string() };
     let mut wires = vec![];
@@ -1846,11 +1848,21 @@ fn canon_model(line: &str) -> String {
 
 /// Ask the model about a recorded run; returns the index of the first differing step.
 fn model_diff(drv: &mut Driver, w: &World) -> Option<(usize, String, String)> {
+    model_diff_tags(drv, w, &mut None)
+}
+
+/// … collecting the model-branch tags of the steps (up to the first difference) into `tags`.
+fn model_diff_tags(drv: &mut Driver, w: &World, tags: &mut Option<&mut std::collections::BTreeMap<String, u64>>) -> Option<(usize, String, String)> {
     let mut reqs = vec!["reset".to_string()];
     reqs.extend(w.header_lines());
     reqs.extend(w.steps.iter().map(|s| s.line.clone()));
     let ans = drv.batch(&reqs);
     for (i, st) in w.steps.iter().enumerate() {
+        if let Some(t) = tags.as_mut() {
+            if let Some((_, tg)) = ans[i + 3].split_once(" | #") {
+                for x in tg.split(" #").filter(|x| !x.is_empty()) { *t.entry(x.to_string()).or_insert(0) += 1; }
+            }
+        }
         let m = canon_model(&ans[i + 3]);
         let im = canon_model(&st.out);
         if m != im {
@@ -2164,7 +2176,10 @@ fn main() {
         }
         if let Some(d) = drv.as_mut() {
             rep.model_compared += 1;
-            if let Some((i, m, im)) = model_diff(d, &w) {
+            let mut tags = std::collections::BTreeMap::new();
+            let diff = model_diff_tags(d, &w, &mut Some(&mut tags));
+            for (k, n) in &tags { rep.count_n(&format!("model-branch/{k}"), *n); }
+            if let Some((i, m, im)) = diff {
                 let attr = attribute(&w.steps[i].line);
                 rep.count(&format!("model-diff/{}", attr.join("+")));
                 if attr.contains(&focus.name()) || std::env::var("PVH_ALL_DIFFS").is_ok() {
